@@ -104,6 +104,51 @@ def generate(work, mode, maxbatch, depth_batches, num, seed):
     return res, res.generated, batches
 
 
+def uapi_constants(path="/usr/include/linux/io_uring.h"):
+    """name -> value from the kernel's uapi header: enums (sequential, with explicit values) and #define NAME (1U << X) / number"""
+    if not os.path.exists(path):
+        return {}
+    txt = re.sub(r"/\*.*?\*/", "", open(path).read(), flags=re.S)
+    vals = {}
+
+    def ev(expr):
+        expr = re.sub(r"(\d+)[uU][lL]*", r"\1", expr.strip())
+        expr = re.sub(r"[A-Za-z_]\w*", lambda m: str(vals[m.group(0)]), expr)
+        return int(eval(expr, {"__builtins__": {}}))
+
+    for m in re.finditer(r"enum\s*\w*\s*\{(.*?)\}", txt, flags=re.S):
+        nxt = 0
+        for item in m.group(1).split(","):
+            item = item.strip()
+            if not item:
+                continue
+            if "=" in item:
+                name, e = [x.strip() for x in item.split("=", 1)]
+                try:
+                    nxt = ev(e)
+                except Exception:
+                    continue
+            else:
+                name = item
+            if re.fullmatch(r"\w+", name):
+                vals[name] = nxt
+                nxt += 1
+    for m in re.finditer(r"^#define\s+(\w+)\s+(.+)$", txt, flags=re.M):
+        try:
+            vals[m.group(1)] = ev(m.group(2))
+        except Exception:
+            pass
+    return vals
+
+
+def library_constant_names():
+    """the io_uring constants the library defines, from its source"""
+    src = open(os.path.join(core.REPO, "rusl/src/platform/compat/io_uring.rs")).read()
+    names = set(re.findall(r"const\s+((?:IOSQE|IORING)_\w+)\s*=", src))
+    names |= {"IORING_POLL_" + n for n in re.findall(r"const\s+(ADD_MULTI|UPDATE_EVENTS|UPDATE_USER_DATA)\s*=", src)}
+    return names
+
+
 def sock_scripts(work, maxq):
     """UringSock.tla: exhaustive run + dump -> transition tour -> scripts, with the model's result per step"""
     cfg = tlc_cfg(os.path.join(work, "sock_mc.cfg"), {"MaxQ": maxq}, "SInit", "SNext", ("QueueBounded",))
@@ -144,10 +189,10 @@ def sock_scripts(work, maxq):
     return res, g.nedges, scripts
 
 
-def run_driver(bindir, batches_path, root, entries, flags, timeout=900, mode="run"):
+def run_driver(bindir, batches_path, root, entries, flags, timeout=900, mode="run", prefix=()):
     shutil.rmtree(root, ignore_errors=True)
     os.makedirs(root)
-    p = core.run_cmd([os.path.join(bindir, "uring_ops"), mode, batches_path, root, str(entries), str(flags)], timeout=timeout, check=False)
+    p = core.run_cmd(list(prefix) + [os.path.join(bindir, "uring_ops"), mode, batches_path, root, str(entries), str(flags)], timeout=timeout, check=False)
     recs = [json.loads(l) for l in p.stdout.splitlines() if l.startswith("{") and l.endswith("}")]
     if p.returncode != 0:
         # a crash of the driver process is data if the run was rejected before (decided by the caller)
@@ -158,8 +203,8 @@ def run_driver(bindir, batches_path, root, entries, flags, timeout=900, mode="ru
 
 def judge_batches(chk, recs, tag):
     path = os.path.join(chk.work, "ops_trace_%s.ndjson" % tag)
-    slim = [r if r["ev"] in ("geometry", "lap") else {"ev": "batch", "panic": r["panic"], "enter": r["enter"], "side_same": r["side_same"], "payload_same": r["payload_same"],
-             "subs": [{k: s[k] for k in ("u", "op", "link", "req", "got_slot")} for s in r["subs"]],
+    slim = [r if r["ev"] in ("geometry", "lap", "constant") else {"ev": "batch", "panic": r["panic"], "enter": r["enter"], "side_same": r["side_same"], "payload_same": r["payload_same"],
+             "subs": [{"u": s["u"], "op": s["op"], "link": s["link"], "hard": bool(s.get("hard")), "req": s["req"], "got_slot": s["got_slot"]} for s in r["subs"]],
              "cqes": [{"u": c["u"], "res": c["res"]} for c in r["cqes"]],
              "direct": [{"u": d["u"], "res": d["res"], "ran": d["ran"], "revents": d.get("revents") or 0,
                          "count_reached": bool(d.get("count_reached"))} for d in r["direct"]]}
@@ -292,7 +337,7 @@ def run(tier):
     # requested sizes: powers of two and sizes the kernel rounds up (3->4, 5,6,7->8, 12->16, 33->64); every walk laps
     # its ring many times
     sizes = ((1, 100), (2, 100), (3, 100), (5, 100), (6, 80), (7, 80), (8, 200), (12, 80), (33, 80)) if quick else \
-        ((1, 400), (2, 400), (3, 400), (5, 400), (6, 400), (7, 400), (8, 1500), (12, 400), (32, 600), (33, 400))
+        ((1, 300), (2, 300), (3, 300), (5, 300), (6, 300), (7, 300), (8, 1200), (12, 300), (32, 400), (33, 300))
     with cf.ThreadPoolExecutor(max_workers=3) as pool:
         f_models = pool.submit(model_runs, chk.work)
         f_singles = pool.submit(generate, chk.work, "singles", 1, 0, 0, chk.seed)
@@ -350,6 +395,14 @@ def run(tier):
                 [{"op": "statx", "dir": 0, "name": 2, "link": True}, {"op": "unlinkat", "dir": 0, "name": 2, "rmdir": 1, "link": False}],
                 [{"op": "readv", "h": 0, "len": 1, "link": False}]]
         plan.append(("sqpoll_idle", 8, SQPOLL, [dict(b=i, reset=(i == 0), sleep_ms=(0 if i == 0 else 300), ops=b) for i, b in enumerate(idle)]))
+    # io_uring_enter fails once without taking anything; the caller flushes again (which must report everything still
+    # unconsumed) and retries: (1) a ring created disabled (IORING_SETUP_R_DISABLED: -EBADFD until enabled),
+    # (2) errors injected into io_uring_enter by strace (EINTR, EAGAIN, EBUSY: every 5th call from the 3rd on)
+    retry_batches = [dict(b=i, reset=(i == 0), ops=b) for i, b in enumerate(walks[8][0][:40])]
+    if R_DISABLED in accepted:
+        plan.append(("enter_fails_ring_disabled", 8, R_DISABLED, retry_batches))
+    for err in (("EINTR", "EAGAIN", "EBUSY") if shutil.which("strace") else ()):
+        plan.append(("enter_fails_" + err, 8, 0, retry_batches, ("strace", "-f", "-o", "/dev/null", "-e", "trace=io_uring_enter", "-e", "inject=io_uring_enter:error=%s:when=3+5" % err)))
     if not quick:       # every flag combination on the main ring size as well
         for fl in ops_flags:
             for w in walks[8][:1]:
@@ -358,10 +411,11 @@ def run(tier):
     nontrivial = set()
     allrecs, meta = [], []
     aborted = {}
-    for (tag, entries, flags, batches) in plan:
+    for item in plan:
+        (tag, entries, flags, batches), prefix = item[:4], (item[4] if len(item) > 4 else ())
         bpath = os.path.join(chk.work, "batches_%s.ndjson" % tag)
         core.write_ndjson(bpath, batches)
-        recs = run_driver(bindir, bpath, root, entries, flags)
+        recs = run_driver(bindir, bpath, root, entries, flags, prefix=prefix)
         os.unlink(bpath)
         if recs and recs[0]["ev"] == "setup_failed":
             raise core.ToolError("set-up of an accepted flag combination failed: %s" % recs[0])
@@ -379,6 +433,7 @@ def run(tier):
                 continue
             st["batches"] += 1
             st["operations"] += r["n"]
+            st["enter_retries"] = st.get("enter_retries", 0) + max(0, len(r.get("enter_attempts", [])) - 1)
             st["linked"] += sum(1 for s in r["subs"] if s["link"])
             st["cancelled"] += sum(1 for c in r["cqes"] if c["res"] == -125)
             st["failed_results"] += sum(1 for c in r["cqes"] if c["res"] < 0)
@@ -408,6 +463,21 @@ def run(tier):
                 aborted["sock"] = r["why"]
         sock_stats["scripts_cut_short"] += sum(1 for k, sc in enumerate(scripts) if len(per_run.get(k, [])) < len(sc["steps"]))
     os.unlink(spath)
+    # every flag / opcode constant of the library against the kernel's uapi header
+    uapi = uapi_constants()
+    lib = json.loads(core.run_cmd([os.path.join(bindir, "uring_ops"), "constants"], timeout=60).stdout.splitlines()[0])["lib"]
+    for name, val in sorted(lib.items()):
+        allrecs.append({"ev": "constant", "name": name, "lib": val, "uapi": uapi.get(name, -1)})
+        meta.append(("constants", 0, 0))
+    chk.extra["constants"] = {"compared_with_uapi_header": sum(1 for n in lib if n in uapi), "not_in_header": sorted(n for n in lib if n not in uapi),
+                              "defined_by_library_but_not_compared": sorted(library_constant_names() - set(lib))}
+    # SQPOLL + completion-ring overflow + idle thread: one more entry by the wake-up protocol
+    if SQPOLL in accepted:
+        p = core.run_cmd([os.path.join(bindir, "uring_ops"), "overflow"], timeout=60, check=False)
+        for l in p.stdout.splitlines():
+            if l.startswith("{") and json.loads(l)["ev"] == "lap":
+                allrecs.append(json.loads(l))
+                meta.append(("sqpoll_cq_overflow_idle", 1, SQPOLL))
     core.log("driver: %d batches %.1fs" % (len(allrecs), time.time() - t1))
     t2 = time.time()
     B = 4000
@@ -420,6 +490,15 @@ def run(tier):
         for i, clause in bad.items():
             rec = allrecs[ci * B + i]
             tag, entries, flags = meta[ci * B + i]
+            if rec["ev"] == "constant":
+                nbad += 1
+                chk.violate({"part": "constants", "clause": clause, "name": rec["name"]}, "%s: %s is %d in the library, %d in the kernel's uapi header" % (clause, rec["name"], rec["lib"], rec["uapi"]),
+                            {"part": "constants", "record": rec, "clause": clause})
+                continue
+            if rec["ev"] == "lap":
+                nbad += 1
+                chk.violate({"part": "lap", "clause": clause, "scenario": rec.get("scenario")}, "%s: %s" % (clause, rec), {"part": "lap", "record": rec, "clause": clause})
+                continue
             if rec["ev"] == "geometry":
                 nbad += 1
                 chk.violate({"part": "setup", "clause": clause}, "%s: set-up of a ring of %d requested entries (flags %d): wrapper %s, kernel sq_entries %d cq_entries %d" % (
@@ -507,7 +586,7 @@ def run(tier):
     chk.extra["teardown_runs"] = {"traced": len(truns), "rejected": len(tbad), "skipped": skipped[:10],
                                   "single_mmap_runs": sum(1 for m in tmeta if m[3])}
     chk.extra["expected_failures_confirmed"] = xf
-    for (tag, entries, flags, batches) in plan[:3]:
+    for (tag, entries, flags, batches) in [p[:4] for p in plan[:3]]:
         chk.sample({"run": tag, "entries": entries, "flags": flags, "first_batches": [b["ops"] for b in batches[:2]]})
     chk.assumptions = [
         "the oracle for results and side effects is the equivalent direct system call (libc) on a twin directory/handle table, not a model of the file system",
